@@ -13,7 +13,7 @@ structure Region where
   deriving Repr
 
 def Region.text (r : Region) : Text := r.ws ++ marker r.tag ++ r.raw ++ r.nl
-def Region.content (r : Region) : Text := trimEndChar '\r' (trimEndChar '\n' r.raw)
+def Region.content (r : Region) : Text := replaceCrLf (trimEndChar '\r' (trimEndChar '\n' r.raw))
 
 /-- Nothing but white space before the tag, no other field hidden inside the content, at most one newline after. -/
 def Region.Good (r : Region) : Prop :=
